@@ -34,6 +34,7 @@ import (
 type c05List struct {
 	isNil bool
 	v     []int
+	spare int // extra capacity behind the items (only used by the history kinds)
 }
 
 func c05ParseInts(s string) ([]int, bool) {
@@ -78,8 +79,8 @@ func c05ParseList(s string) (c05List, bool) {
 	if s == "nil" {
 		return c05List{isNil: true}, true
 	}
-	v, ok := c05ParseInts(s)
-	return c05List{v: v}, ok
+	v, spare, ok := c05ParseIntsSpare(s)
+	return c05List{v: v, spare: spare}, ok
 }
 
 func (l c05List) g() []int {
@@ -883,7 +884,283 @@ func c05RunSPromoted(a c05SS, name, arg string) string {
 	return "bad-op"
 }
 
-// ---------------------------------------------------------------------------------- kind Q (histories)
+// ---------------------------------------------------------------------------------- kinds P, R, Q (histories)
+
+// kind P: Stream histories.  Objects of both families, built once; results appended; everything re-read.
+func c05RunP(o []c05List, ops []string) []string {
+	gobjs := make([]*fpgo.StreamDef[int], len(o))
+	iobjs := make([]*fpgo.StreamForInterfaceDef, len(o))
+	for k := range o {
+		e := c05KS{0, o[k].v, o[k].spare}
+		if o[k].isNil {
+			gobjs[k], iobjs[k] = fpgo.StreamFromArray[int](nil), fpgo.StreamForInterface.FromArray(nil)
+		} else {
+			gobjs[k], iobjs[k] = e.gStream(), e.iStream()
+		}
+	}
+	dumpG := func() string {
+		p := make([]string, len(gobjs))
+		for k, x := range gobjs {
+			p[k] = c05ShowInts(*x)
+		}
+		return strings.Join(p, "|")
+	}
+	dumpI := func() string {
+		p := make([]string, len(iobjs))
+		for k, x := range iobjs {
+			p[k] = c05ShowIfaces(*x)
+		}
+		return strings.Join(p, "|")
+	}
+	outs := make([]string, 0, len(ops))
+	for _, op := range ops {
+		f := strings.Split(op, ":")
+		idx := func(s string) int {
+			n, err := strconv.Atoi(s)
+			if err != nil || n < 0 || n >= len(gobjs) {
+				return -1
+			}
+			return n
+		}
+		ok := false
+		fam := -1
+		switch {
+		case len(f) == 2 && (f[0] == "distinct" || f[0] == "reverse" || f[0] == "clone"):
+			ok = idx(f[1]) >= 0
+		case len(f) == 3 && (f[0] == "sort" || f[0] == "filter" || f[0] == "map"):
+			n, err := strconv.Atoi(f[2])
+			fam = n
+			ok = idx(f[1]) >= 0 && err == nil && n >= 0
+		case len(f) == 3 && (f[0] == "extend" || f[0] == "minus" || f[0] == "inter"):
+			ok = idx(f[1]) >= 0 && (f[2] == "n" || idx(f[2]) >= 0)
+		case len(f) == 3 && (f[0] == "concat" || f[0] == "append" || f[0] == "rmitem"):
+			ok = idx(f[1]) >= 0 && idx(f[2]) >= 0
+		}
+		if !ok {
+			outs = append(outs, "g=bad-op")
+			continue
+		}
+		r := idx(f[1])
+		var gres *fpgo.StreamDef[int]
+		var ires *fpgo.StreamForInterfaceDef
+		g := c05Try(func() string {
+			var ga *fpgo.StreamDef[int]
+			if len(f) == 3 && fam < 0 && f[2] != "n" {
+				ga = gobjs[idx(f[2])]
+			}
+			s := gobjs[r]
+			switch f[0] {
+			case "distinct":
+				gres = s.Distinct()
+			case "reverse":
+				gres = s.Reverse()
+			case "clone":
+				gres = s.Clone()
+			case "sort":
+				gres = s.Sort(func(x, y int) bool { return c04LessFn(fam, x, y) })
+			case "filter":
+				gres = s.Filter(func(x int, i int) bool { return c04PredFn(fam, x, i) })
+			case "map":
+				gres = s.Map(func(x int, i int) int { return c04MapFn(fam, x, i) })
+			case "extend":
+				gres = s.Extend(ga)
+			case "minus":
+				gres = s.Minus(ga)
+			case "inter":
+				gres = s.Intersection(ga)
+			case "concat":
+				gres = s.Concat(*ga)
+			case "append":
+				gres = s.Append(*ga...)
+			case "rmitem":
+				gres = s.RemoveItem(*ga...)
+			}
+			return ""
+		})
+		i := c05Try(func() string {
+			var ia *fpgo.StreamForInterfaceDef
+			if len(f) == 3 && fam < 0 && f[2] != "n" {
+				ia = iobjs[idx(f[2])]
+			}
+			s := iobjs[r]
+			switch f[0] {
+			case "distinct":
+				ires = s.Distinct()
+			case "reverse":
+				ires = s.Reverse()
+			case "clone":
+				ires = s.Clone()
+			case "sort":
+				ires = s.Sort(func(x, y interface{}) bool { return c04LessFn(fam, x.(int), y.(int)) })
+			case "filter":
+				ires = s.Filter(func(x interface{}, i int) bool { return c04PredFn(fam, x.(int), i) })
+			case "map":
+				ires = s.Map(func(x interface{}, i int) interface{} { return c04MapFn(fam, x.(int), i) })
+			case "extend":
+				ires = s.Extend(ia)
+			case "minus":
+				ires = s.Minus(ia)
+			case "inter":
+				ires = s.Intersection(ia)
+			case "concat":
+				ires = s.Concat(*ia)
+			case "append":
+				ires = s.Append(*ia...)
+			case "rmitem":
+				ires = s.RemoveItem(*ia...)
+			}
+			return ""
+		})
+		if gres == nil {
+			gres = new(fpgo.StreamDef[int])
+		}
+		if ires == nil {
+			ires = new(fpgo.StreamForInterfaceDef)
+		}
+		gobjs, iobjs = append(gobjs, gres), append(iobjs, ires)
+		if g == "" {
+			g = c05Try(dumpG)
+		}
+		if i == "" {
+			i = c05Try(dumpI)
+		}
+		outs = append(outs, "g="+g+" i="+i)
+	}
+	return outs
+}
+
+// kind R: MapSet histories
+func c05RunR(o []c05Map, ops []string) []string {
+	gobjs := make([]fpgo.SetDef[int, int], len(o))
+	iobjs := make([]*fpgo.SetForInterfaceDef, len(o))
+	for k := range o {
+		gobjs[k], iobjs[k] = o[k].gRecv(), o[k].iRecv()
+	}
+	dumpG := func() string {
+		p := make([]string, len(gobjs))
+		for k, x := range gobjs {
+			p[k] = c05ShowMapG(x.AsMap())
+		}
+		return strings.Join(p, "|")
+	}
+	dumpI := func() string {
+		p := make([]string, len(iobjs))
+		for k, x := range iobjs {
+			p[k] = c05ShowMapI(*x)
+		}
+		return strings.Join(p, "|")
+	}
+	outs := make([]string, 0, len(ops))
+	for _, op := range ops {
+		f := strings.Split(op, ":")
+		idx := func(s string) int {
+			n, err := strconv.Atoi(s)
+			if err != nil || n < 0 || n >= len(gobjs) {
+				return -1
+			}
+			return n
+		}
+		ok := false
+		var l []int
+		fam := 0
+		switch {
+		case len(f) == 2 && f[0] == "clone":
+			ok = idx(f[1]) >= 0
+		case len(f) == 3 && (f[0] == "add" || f[0] == "rmkeys" || f[0] == "rmvals"):
+			var okl bool
+			l, okl = c05ParseInts(f[2])
+			ok = idx(f[1]) >= 0 && okl
+		case len(f) == 3 && f[0] == "mapval":
+			n, err := strconv.Atoi(f[2])
+			fam = n
+			ok = idx(f[1]) >= 0 && err == nil && n >= 0
+		case len(f) == 3 && (f[0] == "union" || f[0] == "inter" || f[0] == "minus"):
+			ok = idx(f[1]) >= 0 && (f[2] == "n" || idx(f[2]) >= 0)
+		}
+		if !ok {
+			outs = append(outs, "g=bad-op")
+			continue
+		}
+		r := idx(f[1])
+		var gres fpgo.SetDef[int, int]
+		var ires *fpgo.SetForInterfaceDef
+		binary := f[0] == "union" || f[0] == "inter" || f[0] == "minus"
+		g := c05Try(func() string {
+			var ga fpgo.SetDef[int, int]
+			if binary && f[2] != "n" {
+				ga = gobjs[idx(f[2])]
+			}
+			s := gobjs[r]
+			switch f[0] {
+			case "clone":
+				gres = s.Clone()
+			case "add":
+				gres = s.Add(l...)
+			case "rmkeys":
+				gres = s.RemoveKeys(l...)
+			case "rmvals":
+				gres = s.RemoveValues(l...)
+			case "mapval":
+				gres = s.MapValue(func(v int) int { return c04ValFn(fam, v) })
+			case "union":
+				gres = s.Union(ga)
+			case "inter":
+				gres = s.Intersection(ga)
+			case "minus":
+				gres = s.Minus(ga)
+			}
+			return ""
+		})
+		i := c05Try(func() string {
+			var ia *fpgo.SetForInterfaceDef
+			if binary && f[2] != "n" {
+				ia = iobjs[idx(f[2])]
+			}
+			s := iobjs[r]
+			switch f[0] {
+			case "clone":
+				ires = s.Clone()
+			case "add":
+				ires = s.Add(c05List{v: l}.i()...)
+			case "rmkeys":
+				ires = s.RemoveKeys(c05List{v: l}.i()...)
+			case "rmvals":
+				ires = s.RemoveValues(c05List{v: l}.i()...)
+			case "mapval":
+				ires = s.MapValue(func(v interface{}) interface{} {
+					if v == nil { // the zero value stored by Add
+						return c04ValFn(fam, 0)
+					}
+					return c04ValFn(fam, v.(int))
+				})
+			case "union":
+				ires = s.Union(ia)
+			case "inter":
+				ires = s.Intersection(ia)
+			case "minus":
+				ires = s.Minus(ia)
+			}
+			return ""
+		})
+		if gres == nil {
+			gres = fpgo.SetFrom[int, int]()
+		}
+		if ires == nil {
+			ires = fpgo.SetForInterfaceFrom()
+		}
+		gobjs, iobjs = append(gobjs, gres), append(iobjs, ires)
+		if g == "" {
+			g = c05Try(dumpG)
+		}
+		if i == "" {
+			i = c05Try(dumpI)
+		}
+		outs = append(outs, "g="+g+" i="+i)
+	}
+	return outs
+}
+
+// kind Q: StreamSet histories
 
 func c05RunQ(o []c05SS, ops []string) []string {
 	gobjs := make([]*fpgo.StreamSetDef[int, int], len(o))
@@ -1062,13 +1339,17 @@ func c05Run(line string) string {
 	}
 	outs := make([]string, 0, len(ops))
 	switch kind {
-	case "L":
+	case "L", "P":
 		o := make([]c05List, len(opds))
 		okAll := true
 		for k, s := range opds {
 			var ok bool
 			o[k], ok = c05ParseList(s)
 			okAll = okAll && ok
+		}
+		if kind == "P" && okAll {
+			outs = c05RunP(o, ops)
+			break
 		}
 		for _, op := range ops {
 			if !okAll {
@@ -1077,13 +1358,17 @@ func c05Run(line string) string {
 			}
 			outs = append(outs, c05Fix(c05RunL(o, op)))
 		}
-	case "M":
+	case "M", "R":
 		o := make([]c05Map, len(opds))
 		okAll := true
 		for k, s := range opds {
 			var ok bool
 			o[k], ok = c05ParseMap(s)
 			okAll = okAll && ok
+		}
+		if kind == "R" && okAll {
+			outs = c05RunR(o, ops)
+			break
 		}
 		for _, op := range ops {
 			if !okAll {
@@ -1440,12 +1725,120 @@ func c05Gen(tier string, rng *rand.Rand, emit func(string)) map[string]interface
 		}
 		out("Qrand", "Q "+strings.Join(opds, " ")+": "+strings.Join(ops, " ; "))
 	}
+	// ---- kind P: Stream histories (spare capacity in the operands), all histories of 2 ops on 3 operand triples
+	pOps := func(n int) []string {
+		var res []string
+		for _, name := range []string{"extend", "minus", "inter", "concat", "append", "rmitem"} {
+			for r := 0; r < n; r++ {
+				for a := 0; a < n; a++ {
+					res = append(res, fmt.Sprintf("%s:%d:%d", name, r, a))
+				}
+			}
+		}
+		for r := 0; r < n; r++ {
+			res = append(res, fmt.Sprintf("distinct:%d", r), fmt.Sprintf("reverse:%d", r), fmt.Sprintf("clone:%d", r),
+				fmt.Sprintf("sort:%d:1", r), fmt.Sprintf("filter:%d:0", r), fmt.Sprintf("map:%d:0", r))
+		}
+		return res
+	}
+	for _, t := range [][]string{{"[0.1+2]", "[3]", "[4]"}, {"[0.1.0+1]", "[1.2+2]", "[]"}, {"[+3]", "[2.0+1]", "nil"}} {
+		head := "P " + strings.Join(t, " ") + ": "
+		for _, o1 := range pOps(3) {
+			for _, o2 := range pOps(4) {
+				out("P2", head+o1+" ; "+o2)
+			}
+		}
+	}
+	nRandP := 1500
+	if thorough {
+		nRandP = 20000
+	}
+	for n := 0; n < nRandP; n++ {
+		no := 2 + rng.Intn(2)
+		opds := make([]string, no)
+		for k := range opds {
+			opds[k] = randStream()
+		}
+		nops := 2 + rng.Intn(3)
+		ops := make([]string, nops)
+		for k := range ops {
+			all := pOps(no + k)
+			ops[k] = all[rng.Intn(len(all))]
+			if rng.Intn(20) == 0 {
+				ops[k] = fmt.Sprintf("%s:%d:n", []string{"extend", "minus", "inter"}[rng.Intn(3)], rng.Intn(no+k))
+			}
+		}
+		out("Prand", "P "+strings.Join(opds, " ")+": "+strings.Join(ops, " ; "))
+	}
+	// ---- kind R: MapSet histories
+	rOps := func(n int) []string {
+		var res []string
+		for _, name := range []string{"union", "inter", "minus"} {
+			for r := 0; r < n; r++ {
+				for a := 0; a < n; a++ {
+					res = append(res, fmt.Sprintf("%s:%d:%d", name, r, a))
+				}
+			}
+		}
+		for r := 0; r < n; r++ {
+			res = append(res, fmt.Sprintf("clone:%d", r), fmt.Sprintf("add:%d:[1.7]", r), fmt.Sprintf("rmkeys:%d:[1.2]", r),
+				fmt.Sprintf("rmvals:%d:[11.21]", r), fmt.Sprintf("mapval:%d:0", r))
+		}
+		return res
+	}
+	for _, t := range [][]string{{"{0:10,1:11}", "{1:21,2:22}"}, {"{0:10,1:11,2:12}", "{1:21}"}, {"{1:11}", "{0:20,1:21}"},
+		{"{0:10}", "{}"}, {"nilmap", "{1:21}"}, {"{0:10,1:11}", "{0:20,1:21}"}} {
+		head := "R " + strings.Join(t, " ") + ": "
+		for _, o1 := range rOps(2) {
+			for _, o2 := range rOps(3) {
+				out("R2", head+o1+" ; "+o2)
+			}
+		}
+	}
+	nRandR := 1000
+	if thorough {
+		nRandR = 15000
+	}
+	for n := 0; n < nRandR; n++ {
+		no := 2 + rng.Intn(2)
+		opds := make([]string, no)
+		for k := range opds {
+			var p []string
+			for key := 0; key < 4; key++ {
+				if rng.Intn(2) == 0 {
+					p = append(p, fmt.Sprintf("%d:%d", key, 1+rng.Intn(4)))
+				}
+			}
+			opds[k] = "{" + strings.Join(p, ",") + "}"
+		}
+		nops := 2 + rng.Intn(3)
+		ops := make([]string, nops)
+		for k := range ops {
+			cur := no + k
+			switch rng.Intn(8) {
+			case 0:
+				ops[k] = fmt.Sprintf("add:%d:[%d.%d]", rng.Intn(cur), rng.Intn(6), rng.Intn(6))
+			case 1:
+				ops[k] = fmt.Sprintf("rmkeys:%d:[%d]", rng.Intn(cur), rng.Intn(6))
+			case 2:
+				ops[k] = fmt.Sprintf("rmvals:%d:[%d.%d]", rng.Intn(cur), 1+rng.Intn(4), 1+rng.Intn(4)) // never 0: Add's zero value is nil in the interface{} family
+			default:
+				a := strconv.Itoa(rng.Intn(cur))
+				if rng.Intn(15) == 0 {
+					a = "n"
+				}
+				ops[k] = fmt.Sprintf("%s:%d:%s", []string{"union", "inter", "minus"}[rng.Intn(3)], rng.Intn(cur), a)
+			}
+		}
+		out("Rrand", "R "+strings.Join(opds, " ")+": "+strings.Join(ops, " ; "))
+	}
 	return map[string]interface{}{
 		"exhaustive": false,
 		"scope": "L: arity 0; all 86 operands (nil + lists of length <= 3 over 4 letters) for arity 1 and all 86^2 pairs; " +
 			"triples: quick 22^3 (length <= 2 over 4 letters) + 86x6x6, thorough all 86^3; random arity 1..5, length <= 8, alphabet <= 7. " +
 			"M: all maps over 3 keys + nil + nil map, pairs and triples; random 6-key maps. " +
 			"S: all key->stream maps with <= 2 of 3 keys, streams of length <= 2 over 2 letters (incl. empty) + nil, all pairs; random 4-key maps, streams length <= 5 over 4 letters. " +
+			"P / R: Stream (3 operand triples, spare capacity) and MapSet (6 operand pairs) histories: ALL histories of 2 ops, every object re-read after every op, + random histories of 2..4 ops. " +
 			"Q: 6 operand triples (streams with spare capacity) x ALL histories of 2 ops (39 x 68) with every object re-read after every op; random histories of 2..4 ops on 2..3 random operands",
 		"cases_by_kind": counts,
 	}
